@@ -25,9 +25,12 @@ var evNames = []string{"stream.Close", "conn.Close", "peer-EOF", "reset", "Serve
 
 const shut = "The stream is shut down"
 
-func c10Body(modes []sysMode) func(x *X) {
+func c10Body(modes []sysMode) func(x *X) { return c10BodyCli(modes, false) }
+
+func c10BodyCli(modes []sysMode, cliPipeChoice bool) func(x *X) {
 	return func(x *X) {
 		mode := modes[x.Choose(len(modes))]
+		cliPipe := cliPipeChoice && x.Choose(2) == 1
 		nev := 4
 		if mode.listen {
 			nev = 5
@@ -35,7 +38,7 @@ func c10Body(modes []sysMode) func(x *X) {
 		ev := x.Choose(nev)
 		timing := x.Choose(3) // 0: event at a quiescent moment; 1: after one echo round trip; 2: racing with an in-flight stream message
 		withTraffic := timing == 1
-		s := newSys(mode, srvOpts{bufSize: 64}, cliOpts{bufSize: 64})
+		s := newSys(mode, srvOpts{bufSize: 64}, cliOpts{bufSize: 64, pipelining: cliPipe})
 		st, err := s.conn.NewStream("StreamSvc.Push")
 		sib, err2 := s.conn.NewStream("StreamSvc.Push")
 		if err != nil || err2 != nil {
@@ -159,7 +162,44 @@ func c10Body(modes []sysMode) func(x *X) {
 	}
 }
 
+// a raw client opens a stream (optionally sends data and a unary request) and disappears at once:
+// the handler that is started for it must not stay blocked.
+func c10OpenThenGone(modes []c04Mode) func(x *X) {
+	return func(x *X) {
+		mode := modes[x.Choose(len(modes))]
+		script := x.Choose(4)
+		enc := wireEncoder("")
+		w, srv, cl, net := rawServer(mode.sys, mode.so)
+		switch script {
+		case 0:
+			cl.WriteMessage(mkReq(enc, 7, upOpen, "StreamSvc.Push", nil))
+		case 1:
+			cl.WriteMessage(mkReq(enc, 7, upOpen, "StreamSvc.Push", nil))
+			cl.WriteMessage(mkReq(enc, 7, upData, "", streamMsg(0x31, 0)))
+		case 2:
+			cl.WriteMessage(mkReq(enc, 3, nil, "Svc.Echo", mkPayload(1, fYield, 12)))
+			cl.WriteMessage(mkReq(enc, 7, upOpen, "StreamSvc.Push", nil))
+		case 3:
+			cl.WriteMessage(mkReq(enc, 7, upOpen, "StreamSvc.Push", nil))
+			cl.WriteMessage(mkReq(enc, 8, upOpen, "StreamSvc.Push", nil))
+		}
+		cl.Close()
+		vs.Quiesce()
+		if w.streamsEx != w.streamsIn {
+			x.Fail("C10/handler-blocked/open-then-disconnect", "%d stream handlers were started for a client that disconnected right after opening, %d returned (script %d, mode %s/%s)", w.streamsIn, w.streamsEx, script, mode.sys.name, modeName(mode.so))
+		}
+		x.Outcome("%s/%s script=%d handlers=%d/%d", mode.sys.name, modeName(mode.so), script, w.streamsEx, w.streamsIn)
+		if net != nil {
+			srv.Close()
+		}
+		vs.Quiesce()
+	}
+}
+
 func init() {
+	register(&Scenario{Prop: "C10", Name: "c10/open-then-disconnect", Quick: []Bound{{1, 0}, {2, 0}}, Thorough: []Bound{{3, 0}}, Body: c10OpenThenGone(c08SrvModes)})
+	register(&Scenario{Prop: "C10", Name: "c10/servecodec-atomic", Quick: []Bound{{1, 0}}, Thorough: []Bound{{2, 0}}, Body: c10Body(sysModes[:1]), Atomic: true})
+	register(&Scenario{Prop: "C10", Name: "c10/servecodec-clientpipelining", Quick: []Bound{{2, 0}}, Thorough: []Bound{{3, 0}}, Body: c10BodyCli(sysModes[:1], true)})
 	register(&Scenario{Prop: "C10", Name: "c10/servecodec", Quick: []Bound{{1, 0}, {2, 0}}, Thorough: []Bound{{3, 0}}, Body: c10Body(sysModes[:1])})
 	register(&Scenario{Prop: "C10", Name: "c10/allmodes", Quick: []Bound{{1, 0}}, Thorough: []Bound{{2, 0}}, Body: c10Body(sysModes)})
 }
